@@ -15,6 +15,7 @@ ca == 97  cb == 98  cc == 99  cx == 120  cy == 121
 
 Lit(s) == LitSeg(s)
 Par(n) == [k |-> "param", s |-> <<>>, n |-> n]
+Pre(t, n) == [k |-> "pre", s |-> t, n |-> n]
 
 (* template pool *)
 Template(id) ==
@@ -27,6 +28,9 @@ Template(id) ==
     [] id = "a/"     -> [segs |-> <<Lit(<<ca>>)>>, trail |-> TRUE]                                   \* /a/
     [] id = "x"      -> [segs |-> <<Par(<<cx>>)>>, trail |-> FALSE]                                  \* /{x}
     [] id = "xy"     -> [segs |-> <<Par(<<cx>>), Par(<<cy>>)>>, trail |-> FALSE]                      \* /{x}/{y}
+    [] id = "ak=x"   -> [segs |-> <<Lit(<<ca>>), Pre(<<107, 61>>, <<cx>>)>>, trail |-> FALSE]         \* /a/k={x}
+    [] id = "vxy"    -> [segs |-> <<Pre(<<118>>, <<cx>>), Par(<<cy>>)>>, trail |-> FALSE]             \* /v{x}/{y}
+    [] id = "k=xb"   -> [segs |-> <<Pre(<<107, 61>>, <<cx>>), Lit(<<cb>>)>>, trail |-> FALSE]         \* /k={x}/b
 
 api3 == <<97, 112, 105>>   \* "api"
 BaseOf(id) ==
@@ -58,6 +62,13 @@ SegOf(id) ==
     [] id = "%23"   -> <<E(35)>>
     [] id = ";="    -> <<P(59), P(61)>>
     [] id = "hi"    -> <<P(233)>>                     \* raw non-ASCII byte
+    [] id = "k=:"   -> <<P(107), P(61), P(58)>>       \* the whole value of {x} in k={x} is ':'
+    [] id = "k=a"   -> <<P(107), P(61), P(ca)>>
+    [] id = "k=*a"  -> <<P(107), P(61), P(42), P(ca)>>
+    [] id = "k="    -> <<P(107), P(61)>>              \* empty value: does not instantiate
+    [] id = "v:"    -> <<P(118), P(58)>>
+    [] id = "va#"   -> <<P(118), P(ca), E(35)>>
+    [] id = "v"     -> <<P(118)>>
     [] id = "%61"   -> <<E(ca)>>                       \* escaped 'a' is not the literal a of a template
 
 MethodOf(id) ==
